@@ -29,7 +29,12 @@ namespace verif {
 		std::atomic<int> fd;       // -2: not initialised, -1: off, >=0: trace descriptor
 		std::atomic<int> next_tid;
 		void (*listener)(char const *line);
-		state() : seq(0), fd(-2), next_tid(0), listener(0) {}
+		// for traces of several forked processes: a sequence counter that lives in
+		// shared memory (set by the harness before fork()) and an offset added to the
+		// thread ids of this process
+		std::atomic<unsigned long long> *shared_seq;
+		int tid_base;
+		state() : seq(0), fd(-2), next_tid(0), listener(0), shared_seq(0), tid_base(0) {}
 	};
 
 	// function-local static of an inline function: one instance per process
@@ -83,8 +88,8 @@ namespace verif {
 		if(!on())
 			return;
 		char buf[1024];
-		unsigned long long n = st().seq++;
-		int len = snprintf(buf,sizeof(buf),"{\"seq\":%llu,\"tid\":%d,",n,tid());
+		unsigned long long n = st().shared_seq ? (*st().shared_seq)++ : st().seq++;
+		int len = snprintf(buf,sizeof(buf),"{\"seq\":%llu,\"tid\":%d,",n,st().tid_base + tid());
 		va_list ap;
 		va_start(ap,fmt);
 		int r = vsnprintf(buf+len,sizeof(buf)-len-3,fmt,ap);
